@@ -48,11 +48,41 @@ def load_source(src, workdir):
         cs = cs_from_scenario(scn)
         cs["name"] = src[2]
         return scn, cs
+    if kind == "gym":
+        name, _modes = gym_id_parts(src[1])
+        path = corpus.bench_yaml(name)
+        return nasim.load_scenario(path, name=name), yamlread.cs_from_yaml(path, name + ":" + src[1])
     raise ValueError(src)
 
 
+def gym_id_parts(env_id):
+    """'TinySmallPO2DVA-v0' -> ('tiny-small', (fully_obs, flat_actions, flat_obs)) by the documented naming rule"""
+    base = env_id.split("-v")[0]
+    va = base.endswith("VA")
+    if va:
+        base = base[:-2]
+    d2 = base.endswith("2D")
+    if d2:
+        base = base[:-2]
+    po = base.endswith("PO")
+    if po:
+        base = base[:-2]
+    for n in corpus.YAML_BENCHMARKS:
+        if "".join(g.capitalize() for g in n.split("-")) == base:
+            return n, (not po, not va, not d2)
+    raise ValueError(env_id)
+
+
+def gym_ctor(env_id):
+    def ctor(scenario, fully_obs=False, flat_actions=True, flat_obs=True):
+        import gymnasium as gym
+        import nasim   # noqa: F401  (registers the ids)
+        return gym.make(env_id).unwrapped
+    return ctor
+
+
 def drive_random(cs, scn, rec, seed, nsteps, modes, genstep_frac=0.3, reset_frac=0.01, bias=0.7, lockstep=False,
-                 extras=True, decode_limit=400, readable=True, record_draws=False):
+                 extras=True, decode_limit=400, readable=True, record_draws=False, ctor=None):
     """seeded random / discovery-biased driver over real step() calls; with lockstep every environment takes
     the same abstract action with the same draw (one group per step)"""
     rng = random.Random(seed)
@@ -64,7 +94,7 @@ def drive_random(cs, scn, rec, seed, nsteps, modes, genstep_frac=0.3, reset_frac
     ph = pyref.per_host(cs)
     eids = []
     for i, (fo, fa, f1) in enumerate(modes):
-        rec.create(i + 1, scn, fo, fa, f1)
+        rec.create(i + 1, scn, fo, fa, f1, ctor=ctor)
         eids.append(i + 1)
     flat_envs = [e for j, e in enumerate(eids) if modes[j][1]]
     param_envs = [e for j, e in enumerate(eids) if not modes[j][1]]
@@ -221,8 +251,13 @@ def run_job(job):
             res["graph_states"] = info["states"]
             res["spec_gates"] = {"%s/%s/%s" % k: v for k, v in info["gates"].items()}
         if job.get("random_steps"):
+            ctor, modes_ = None, job.get("modes", replay.DEFAULT_MODES)
+            if job["src"][0] == "gym":
+                # the environment comes from gymnasium.make(id); the modes the monitor expects follow from the
+                # documented naming of the id (PO / 2D / VA)
+                ctor, modes_ = gym_ctor(job["src"][1]), (gym_id_parts(job["src"][1])[1],)
             drive_random(cs, scn, rec, job.get("seed", 0), job["random_steps"],
-                         job.get("modes", replay.DEFAULT_MODES), lockstep=job.get("lockstep", False),
+                         modes_, lockstep=job.get("lockstep", False), ctor=ctor,
                          extras=job.get("extras", True), readable=not corpus.names_clash(cs),
                          record_draws=job.get("record_draws", False))
         rec.close()
